@@ -255,3 +255,5 @@ M("c19-final-config-stale", "C19", "final training_config.yaml not re-saved afte
 M("c19-model-config-copy", "C19", "TrainingModel keeps a defensive deep copy of the config (trainer's later blanking does not reach checkpoints)", LM, "        super().__init__()\n        self.config = config\n        self.skeletons = skeletons\n", "        super().__init__()\n        import copy\n\n        self.config = copy.deepcopy(config)\n        self.skeletons = skeletons\n")
 M("c12-bu-cap-ascending", "C12", "bottom-up max_instances keeps the lowest-scoring instances", PD, "                    predicted_instances = sorted(\n                        predicted_instances, key=lambda x: x.score, reverse=True\n                    )", "                    predicted_instances = sorted(\n                        predicted_instances, key=lambda x: x.score, reverse=False\n                    )")
 M("c12-td-bbox-labels", "C12", "top-down labelled frames add the bbox bottom-right corner", PD, "                pred_instances = pred_instances + bbox.squeeze(axis=0)[0, :]\n", "                pred_instances = pred_instances + bbox.squeeze(axis=0)[2, :]\n")
+M("c04-gray-mirrored", "C04", "grayscale branch of BaseDataset._fill_cache mirrors the image", CDS, "            else:\n                sample[\"image\"] = convert_to_grayscale(sample[\"image\"])\n\n            # size matcher\n            sample[\"image\"], eff_scale = apply_sizematcher(\n                sample[\"image\"],\n                max_height=self.max_hw[0],\n                max_width=self.max_hw[1],\n            )\n            sample[\"instances\"] = sample[\"instances\"] * eff_scale\n\n            # resize image\n            sample[\"image\"], sample[\"instances\"] = apply_resizer(\n                sample[\"image\"],\n                sample[\"instances\"],\n                scale=self.scale,\n            )\n\n            # Pad the image (if needed) according max stride\n            sample[\"image\"] = apply_pad_to_stride(\n                sample[\"image\"], max_stride=self.max_stride\n            )\n\n            if self.np_chunks:\n                sample[\"image\"] = self.transform_to_pil(sample[\"image\"].squeeze(dim=0))\n                for k, v in sample.items():\n                    if k != \"image\" and isinstance(v, torch.Tensor):\n                        sample[k] = v.numpy()\n                f_name = f\"{self.np_chunks_path}/sample_{idx}.npz\"\n                np.savez_compressed(f_name, **sample)\n                self.cache[idx] = f_name\n\n            else:\n                self.cache[idx] = sample.copy()\n\n        for video in self.labels.videos:\n            video.close()\n\n    def _get_video_idx",
+  "            else:\n                sample[\"image\"] = convert_to_grayscale(sample[\"image\"]).flip(-1)\n\n            # size matcher\n            sample[\"image\"], eff_scale = apply_sizematcher(\n                sample[\"image\"],\n                max_height=self.max_hw[0],\n                max_width=self.max_hw[1],\n            )\n            sample[\"instances\"] = sample[\"instances\"] * eff_scale\n\n            # resize image\n            sample[\"image\"], sample[\"instances\"] = apply_resizer(\n                sample[\"image\"],\n                sample[\"instances\"],\n                scale=self.scale,\n            )\n\n            # Pad the image (if needed) according max stride\n            sample[\"image\"] = apply_pad_to_stride(\n                sample[\"image\"], max_stride=self.max_stride\n            )\n\n            if self.np_chunks:\n                sample[\"image\"] = self.transform_to_pil(sample[\"image\"].squeeze(dim=0))\n                for k, v in sample.items():\n                    if k != \"image\" and isinstance(v, torch.Tensor):\n                        sample[k] = v.numpy()\n                f_name = f\"{self.np_chunks_path}/sample_{idx}.npz\"\n                np.savez_compressed(f_name, **sample)\n                self.cache[idx] = f_name\n\n            else:\n                self.cache[idx] = sample.copy()\n\n        for video in self.labels.videos:\n            video.close()\n\n    def _get_video_idx")
